@@ -1065,6 +1065,10 @@ pub fn get_limit(params: &EntityParams, prepared_query: &mut SingleQuery) -> Str
     }
 
     if let Some(skip) = &params.skip {
+        if query.is_empty() {
+            //SQLite requires a LIMIT clause before OFFSET: -1 means no limit
+            query.push_str("LIMIT -1");
+        }
         match skip {
             FieldValue::Variable(var) => {
                 let vars = prepared_query.add_param(String::from(var), false);
